@@ -993,13 +993,24 @@ impl FromStr for Epoch {
             }
 
             // This is a valid numerical format.
-            // Parse the time scale from the last three characters (TS trims white spaces).
-            let ts = TimeScale::from_str(&s[s.len() - 3..]).with_context(|_| ParseSnafu {
+            // Parse the time scale from the last word: time scales are two to five characters long.
+            let ts_idx = match s.rfind(' ') {
+                Some(idx) => idx + 1,
+                // No space before the time scale, it can only be a three character long one.
+                None => s.len() - 3,
+            };
+            let ts = TimeScale::from_str(&s[ts_idx..]).with_context(|_| ParseSnafu {
                 details: "parsing from string",
             })?;
             // Iterate through the string to figure out where the numeric data starts and ends.
             let start_idx = format.len();
-            let num_str = s[start_idx..s.len() - ts.formatted_len()].trim();
+            if start_idx > ts_idx {
+                return Err(HifitimeError::Parse {
+                    source: ParsingError::ValueError,
+                    details: "parsing as JD, MJD, or SEC",
+                });
+            }
+            let num_str = s[start_idx..ts_idx].trim();
             let value: f64 = match lexical_core::parse(num_str.as_bytes()) {
                 Ok(val) => val,
                 Err(_) => {
@@ -1021,23 +1032,15 @@ impl FromStr for Epoch {
             match format {
                 "JD" => match ts {
                     TimeScale::ET => Ok(Self::from_jde_et(value)),
-                    TimeScale::TAI => Ok(Self::from_jde_tai(value)),
                     TimeScale::TDB => Ok(Self::from_jde_tdb(value)),
-                    TimeScale::UTC => Ok(Self::from_jde_utc(value)),
-                    _ => Err(HifitimeError::Parse {
-                        source: ParsingError::UnsupportedTimeSystem,
-                        details: "for Julian Date",
-                    }),
+                    ts => Ok(Self::from_jde_in_time_scale(value, ts)),
                 },
                 "MJD" => match ts {
-                    TimeScale::TAI => Ok(Self::from_mjd_tai(value)),
-                    TimeScale::UTC | TimeScale::GPST | TimeScale::BDT | TimeScale::GST => {
-                        Ok(Self::from_mjd_in_time_scale(value, ts))
-                    }
-                    _ => Err(HifitimeError::Parse {
+                    TimeScale::ET | TimeScale::TDB => Err(HifitimeError::Parse {
                         source: ParsingError::UnsupportedTimeSystem,
                         details: "for Modified Julian Date",
                     }),
+                    ts => Ok(Self::from_mjd_in_time_scale(value, ts)),
                 },
                 "SEC" => match ts {
                     TimeScale::TAI => Ok(Self::from_tai_seconds(value)),
